@@ -1017,6 +1017,21 @@ class Interpreter:
         return ast.dump(self.to_ast())
 
 
+
+def qualified_name_reference(qualname: str):
+    """Splits a (possibly dotted) global name into the name that must be imported and the
+    expression that refers to the global.
+
+    Since protocol 4 a global may be a qualified name such as `Outer.Inner` (nested classes,
+    methods): `from module import Outer.Inner` is not valid Python, so only the first component
+    is imported and the rest becomes an attribute chain."""
+    first, *rest = qualname.split(".")
+    reference: ast.expr = ast.Name(first, ast.Load())
+    for part in rest:
+        reference = ast.Attribute(reference, part, ast.Load())
+    return first, reference
+
+
 class Proto(NoOp):
     name = "PROTO"
 
@@ -1056,17 +1071,18 @@ class Global(Opcode):
 
     def run(self, interpreter: Interpreter):
         module, attr = self.module, self.attr
+        imported_name, reference = qualified_name_reference(attr)
         if module in ("__builtin__", "__builtins__", "builtins"):
             # no need to emit an import for builtins!
             pass
         else:
             if sys.version_info < (3, 9):
                 # workaround for a bug in astunparse
-                alias = ast.alias(attr, asname=None)
+                alias = ast.alias(imported_name, asname=None)
             else:
-                alias = ast.alias(attr)
+                alias = ast.alias(imported_name)
             interpreter.module_body.append(ast.ImportFrom(module=module, names=[alias], level=0))
-        interpreter.stack.append(ast.Name(attr, ast.Load()))
+        interpreter.stack.append(reference)
 
     def encode(self) -> bytes:
         return f"c{self.module}\n{self.attr}\n".encode()
@@ -1082,17 +1098,21 @@ class StackGlobal(NoOp):
             module = module.value
         if isinstance(attr, ast.Constant):
             attr = attr.value
+        if isinstance(attr, str):
+            imported_name, reference = qualified_name_reference(attr)
+        else:
+            imported_name, reference = attr, ast.Name(attr, ast.Load())
         if module in ("__builtin__", "__builtins__", "builtins"):
             # no need to emit an import for builtins!
             pass
         else:
             if sys.version_info < (3, 9):
                 # workaround for a bug in astunparse
-                alias = ast.alias(attr, asname=None)
+                alias = ast.alias(imported_name, asname=None)
             else:
-                alias = ast.alias(attr)
+                alias = ast.alias(imported_name)
             interpreter.module_body.append(ast.ImportFrom(module=module, names=[alias], level=0))
-        interpreter.stack.append(ast.Name(attr, ast.Load()))
+        interpreter.stack.append(reference)
 
 
 class Inst(StackSliceOpcode):
@@ -1113,18 +1133,19 @@ class Inst(StackSliceOpcode):
 
     def run(self, interpreter: Interpreter, stack_slice: List[ast.expr]):
         module, classname = self.module, self.cls
+        imported_name, reference = qualified_name_reference(classname)
         if module in ("__builtin__", "__builtins__", "builtins"):
             # no need to emit an import for builtins!
             pass
         else:
             if sys.version_info < (3, 9):
                 # workaround for a bug in astunparse
-                alias = ast.alias(classname, asname=None)
+                alias = ast.alias(imported_name, asname=None)
             else:
-                alias = ast.alias(classname)
+                alias = ast.alias(imported_name)
             interpreter.module_body.append(ast.ImportFrom(module=module, names=[alias], level=0))
         args = ast.Tuple(tuple(stack_slice))
-        call = ast.Call(ast.Name(classname, ast.Load()), list(args.elts), [])
+        call = ast.Call(reference, list(args.elts), [])
         var_name = interpreter.new_variable(call)
         interpreter.stack.append(ast.Name(var_name, ast.Load()))
 
